@@ -68,6 +68,8 @@ type Case struct {
 	Authors    []Author `json:"authors"`
 	Ops        []Op     `json:"ops"`
 	Push       Push     `json:"push"`
+	// AvoidKnown switches on the generator/oracle switches that step around known findings (search past a defect).
+	AvoidKnown bool `json:"avoid_known"`
 }
 
 const nSeeds = 4
@@ -169,6 +171,7 @@ func drawCase(t *rapid.T) Case {
 		Resign: genIdent().Draw(t, "resign"),
 	}
 	c.Push = p
+	c.AvoidKnown = rapid.Bool().Draw(t, "avoid_known")
 	return c
 }
 
